@@ -331,6 +331,15 @@ Example C02_repaired_128bit_type :
     /\ att_input cfg_basic3 s1 O [8; 1; 0; 255; 255; 1; 0] 23 = Some (s2, [1; 8; 1; 0; 10]).
 Proof. do 2 eexists. split; vm_compute; reflexivity. Qed.
 
+(* near misses: the Bluetooth base uuid with non-zero upper 16 bits (12342803-0000-1000-8000-00805F9B34FB) is not
+   the type 0x2803: Attribute Not Found, and the monitor rejects the characteristic declarations as an answer *)
+Example C02_32bit_uuid_is_no_16bit_type :
+  (exists s1, att_input cfg_basic3 (srv_init cfg_basic3) O
+      [8; 1; 0; 255; 255; 251; 52; 155; 95; 128; 0; 0; 128; 0; 16; 0; 0; 3; 40; 52; 18] 64 = Some (s1, [1; 8; 1; 0; 10]))
+  /\ c02_monitor cfg_basic3 [(OpIn O [8; 1; 0; 255; 255; 251; 52; 155; 95; 128; 0; 0; 128; 0; 16; 0; 0; 3; 40; 52; 18] 64,
+                              OBytes [9; 7; 2; 0; 2; 3; 0; 0; 42])] = Some (O, dt_type_match).
+Proof. split; [eexists; vm_compute; reflexivity|vm_compute; reflexivity]. Qed.
+
 Example C02_discover_all_uniform :
   discover_all 17 (fi_responder cfg_disc_uniform 23) 1 65535 = [1; 2; 3; 4; 5; 6; 7; 8; 9; 10; 11; 12; 13; 14; 15; 16]
   /\ discover_all 5 (rbg_responder cfg_disc_uniform 23) 1 65535 = [1; 9; 16].
